@@ -222,10 +222,17 @@ func (g *gen) ref(kind, file string, depth int, noSelf bool) M {
 						props = M{}
 						s["properties"] = props
 					}
-					if _, ok := props["deep"]; !ok {
-						props["deep"] = g.leaf("schema", tf)
+					// property names are unrestricted, so the pointer has to escape them (RFC 6901: "~" as
+					// "~0", "/" as "~1"); "t~1x" is the name whose escaped form decodes wrongly when the
+					// two replacements are applied in the wrong order.
+					pn := rapid.SampledFrom([]string{"deep", "deep", "deep", "a/b", "t~x", "t~1x", "~", "~0/~1", "x.y-z_"}).Draw(g.t, "deepname")
+					if pn != "deep" {
+						g.feat["deep:escaped-name"]++
 					}
-					ptr = "#/components/schemas/" + n + "/properties/deep"
+					if _, ok := props[pn]; !ok {
+						props[pn] = g.leaf("schema", tf)
+					}
+					ptr = "#/components/schemas/" + n + "/properties/" + esc(pn)
 				}
 			}
 		case "header":
@@ -246,12 +253,13 @@ func (g *gen) ref(kind, file string, depth int, noSelf bool) M {
 		case "response":
 			d := g.doc(tf)
 			paths := d["paths"].(M)
-			pi, _ := paths["/deep"].(M)
+			pk := rapid.SampledFrom([]string{"/deep", "/deep", "/deep/er", "/d~1p", "/d~p/~0"}).Draw(g.t, "deeppath")
+			pi, _ := paths[pk].(M)
 			if pi == nil {
 				pi = M{"get": M{"responses": M{"200": g.leaf("response", tf)}}}
-				paths["/deep"] = pi
+				paths[pk] = pi
 			}
-			ptr = "#/paths/" + esc("/deep") + "/get/responses/200"
+			ptr = "#/paths/" + esc(pk) + "/get/responses/200"
 		}
 		if ptr != "" {
 			g.feat["form:deep-pointer"]++
